@@ -20,19 +20,33 @@ def repo_dir():
     return os.path.abspath(os.environ.get("VERIF_REPO", "/repo"))
 
 
-def target_dir():
+def target_dir(worker=0):
+    """One private cargo target directory per worker: `cargo kani --harness X` recompiles the
+    harness crate for every harness (the filter is a compiler argument), and cargo serialises
+    builds per target directory, so sharing one directory would serialise all harnesses."""
     r = repo_dir()
-    if r == "/repo":
-        return os.path.join(BUILD, "target")
-    return os.path.join(BUILD, "target-" + hashlib.sha1(r.encode()).hexdigest()[:10])
+    root = os.path.join(BUILD, "target") if r == "/repo" else os.path.join(BUILD, "target-" + hashlib.sha1(r.encode()).hexdigest()[:10])
+    return os.path.join(root, f"w{worker}")
 
 
-def base_env():
+def base_env(worker=0):
     e = dict(os.environ)
     e["CARGO_NET_OFFLINE"] = "true"
-    e["CARGO_TARGET_DIR"] = target_dir()
+    e["CARGO_TARGET_DIR"] = target_dir(worker)
     e.pop("RUSTFLAGS", None)
     return e
+
+
+def clean_goto_outputs(worker):
+    """Delete the per-harness goto binaries Kani leaves behind (they accumulate, several MB each)."""
+    root = os.path.join(target_dir(worker), "kani")
+    for dp, dn, fn in os.walk(root):
+        if os.path.basename(dp) == "out" and "/build/" in dp:
+            for f in fn:
+                try:
+                    os.remove(os.path.join(dp, f))
+                except OSError:
+                    pass
 
 
 _gen_lock = threading.Lock()
@@ -162,7 +176,8 @@ def run_cmd_watch(cmd, log_path, timeout_s, mem_gb, cwd=HARNESS, env=None):
 
 
 def kani_cmd(full_name, playback=False):
-    cmd = ["cargo", "kani", "--harness", full_name, "--exact", "--no-assertion-reach-checks"]
+    mod = full_name.split("::")[0]
+    cmd = ["cargo", "kani", "--no-default-features", "--features", mod, "--harness", full_name, "--exact", "--no-assertion-reach-checks"]
     if playback:
         cmd += ["-Z", "concrete-playback", "--concrete-playback=print"]
     else:
@@ -276,10 +291,11 @@ def classify(pr, status):
     return "pass", ""
 
 
-def run_harness(mod, name, timeout_s, mem_gb, tag=""):
+def run_harness(mod, name, timeout_s, mem_gb, tag="", worker=0):
     full = f"{mod}::{name}"
     log = os.path.join(LOGS, f"{mod}-{name}{tag}.log")
-    rc, status, wall, peak = run_cmd_watch(kani_cmd(full), log, timeout_s, mem_gb)
+    rc, status, wall, peak = run_cmd_watch(kani_cmd(full), log, timeout_s, mem_gb, env=base_env(worker))
+    clean_goto_outputs(worker)
     pr = parse_log(log)
     verdict, why = classify(pr, status)
     return Result(module=mod, name=name, full=full, log=log, rc=rc, status=status, wall_s=round(wall, 1),
@@ -288,40 +304,41 @@ def run_harness(mod, name, timeout_s, mem_gb, tag=""):
 
 def run_many(items, jobs, timeout_s, mem_gb, progress=True):
     """items: list of (mod, name). Returns list of Result in the same order."""
+    import queue
     gen_manifest()
     res = [None] * len(items)
     lock = threading.Lock()
     done = [0]
+    q = queue.Queue()
+    for i in range(len(items)):
+        q.put(i)
 
-    def work(i):
-        mod, name = items[i]
-        r = run_harness(mod, name, timeout_s, mem_gb)
-        if r["verdict"] == "error" and r["why"].startswith("no verdict") and not r["parsed"]["compile_error"]:
-            # one retry (e.g. transient cargo lock / metadata clash between concurrent invocations)
-            r2 = run_harness(mod, name, timeout_s, mem_gb, tag="-retry")
-            r2["retried"] = True
-            r = r2
-        res[i] = r
-        with lock:
-            done[0] += 1
-            if progress:
-                st = r["parsed"]["stats"]
-                print(f"  [{done[0]}/{len(items)}] {r['full']}: {r['verdict']}"
-                      f"{' (' + r['why'] + ')' if r['why'] else ''}  wall={r['wall_s']}s symex={st.get('symex_s')}s "
-                      f"sat={st.get('solver_s')}s rss={r['peak_rss_mb']}MB", flush=True)
+    def worker(w):
+        while True:
+            try:
+                i = q.get_nowait()
+            except queue.Empty:
+                return
+            mod, name = items[i]
+            r = run_harness(mod, name, timeout_s, mem_gb, worker=w)
+            if r["verdict"] == "error" and r["why"].startswith("no verdict") and not r["parsed"]["compile_error"]:
+                r2 = run_harness(mod, name, timeout_s, mem_gb, tag="-retry", worker=w)
+                r2["retried"] = True
+                r = r2
+            res[i] = r
+            with lock:
+                done[0] += 1
+                if progress:
+                    st = r["parsed"]["stats"]
+                    print(f"  [{done[0]}/{len(items)}] {r['full']}: {r['verdict']}"
+                          f"{' (' + r['why'] + ')' if r['why'] else ''}  wall={r['wall_s']}s symex={st.get('symex_s')}s "
+                          f"sat={st.get('solver_s')}s rss={r['peak_rss_mb']}MB", flush=True)
 
-    if not items:
-        return res
-    # first harness alone warms the build (cargo serialises builds anyway; avoids N idle waiters)
-    work(0)
-    if res[0]["parsed"]["compile_error"]:
-        for i in range(1, len(items)):
-            res[i] = Result(module=items[i][0], name=items[i][1], full="::".join(items[i]), log=res[0]["log"], rc=-1,
-                            status="done", wall_s=0, peak_rss_mb=0, verdict="error", why="compile error",
-                            parsed=res[0]["parsed"])
-        return res
-    with ThreadPoolExecutor(max_workers=jobs) as ex:
-        list(ex.map(work, range(1, len(items))))
+    ths = [threading.Thread(target=worker, args=(w,)) for w in range(min(jobs, len(items)))]
+    for t in ths:
+        t.start()
+    for t in ths:
+        t.join()
     return res
 
 
@@ -335,7 +352,7 @@ def extract_playback(mod, name, timeout_s, mem_gb):
     """Re-run a failing harness with concrete playback; return the generated unit test text or None."""
     full = f"{mod}::{name}"
     log = os.path.join(LOGS, f"{mod}-{name}-playback.log")
-    rc, status, wall, peak = run_cmd_watch(kani_cmd(full, playback=True), log, timeout_s, mem_gb)
+    rc, status, wall, peak = run_cmd_watch(kani_cmd(full, playback=True), log, timeout_s, mem_gb, env=base_env("pb"))
     txt = open(log, errors="replace").read()
     m = TEST_RE.search(txt)
     if not m:
@@ -376,9 +393,8 @@ def run_replay_file(path, release=False, timeout_s=1800):
     with _gen_lock:
         open(gen, "w").write(f"#[cfg(test)]\nmod replay_gen {{\n    use crate::{mod}::*;\n{body}\n}}\n")
     log = os.path.join(LOGS, f"replay-{os.path.basename(path)}{'-release' if release else ''}.log")
-    env = base_env()
-    env["CARGO_TARGET_DIR"] = target_dir() + ("-playback-rel" if release else "-playback")
-    cmd = ["cargo", "kani", "playback", "-Z", "concrete-playback"]
+    env = base_env("replay-rel" if release else "replay")
+    cmd = ["cargo", "kani", "playback", "-Z", "concrete-playback", "--no-default-features", "-F", mod]
     if release:
         # `cargo kani playback` has no --release: give the dev/test profiles release settings instead
         for prof in ("DEV", "TEST"):
